@@ -122,6 +122,9 @@ def run(ctx):
         else:
             outcome, ones = "notopt", "-"
         reqs.append(["ss.convert", seq, ps, solver, outcome, ones]); idx.append((ci, "model"))
+        cannot = cfg in ("none", "direct-none") or (fault != "ok" and o["called"] > 0)
+        if cannot and o["res"][0] == "ok":
+            reqs.append(["ss.fcfs", seq, ps]); idx.append((ci, "fcfsdef"))
         if o["res"][0] == "ok":
             reqs.append(["ss.lossless", seq, ps, o["res"][1]]); idx.append((ci, "lossless"))
     resp = ctx.driver.ask(reqs)
@@ -129,7 +132,12 @@ def run(ctx):
         seq, pairs, cfg, fault = cases[ci]
         o = outs[ci]
         inp = {"seq": seq, "pairs": pairs, "cfg": cfg, "fault": fault, "family": meta[ci][0]}
-        if what == "model":
+        if what == "fcfsdef":
+            # the first-come-first-served encoding as DEFINED in Lean (each stem, in 5'->3' order, on the lowest level
+            # not taken by an earlier crossing stem; theorem C16.fcfs_is_greedy_identity)
+            if r != "ok " + o["res"][1]:
+                res.fail("spec", "C13:fallback-not-fcfs", inp, "solver could not deliver an optimum; result %r is not the first-come-first-served encoding %r" % (o["res"][1], r))
+        elif what == "model":
             impl = ("ok " + o["res"][1]) if o["res"][0] == "ok" else "err " + o["res"][1]
             if impl != r:
                 res.fail("corr", "C13:convert", inp, "impl=%r model=%r" % (impl, r))
